@@ -116,6 +116,8 @@ k("ended_from_playing_holds_terminal_values", *BV, ["C18"], "contract", function
   clause="Ended reached from Playing => the component was evaluated at a position >= duration in that very step (terminal values)", assumes=[A6])
 k("ended_implies_terminal_values", *BV, ["C18"], "contract", function="bevy animate (per-entity loop body)",
   clause="from every enabled not-ended pre-state: Ended reported => the component was evaluated at a position >= duration in that step", assumes=[A6])
+k("animate_two_frames_lemma", *BV, ["C18"], "lemma", function="bevy animate (per-entity loop body), two consecutive frames",
+  clause="at most one Ended event; position >= duration at the start of a frame => that frame reports Ended; Ended is absorbing and frozen; never under infinite duration", assumes=[A6])
 k("animator_api_contract", *BV, ["C18"], "contract", function="Animator::{new,default,with_timeline,reset,as_disabled,state}", clause="constructors start enabled at zero in None; reset rewinds and keeps the timeline")
 k("select_animation_step_contract", *BV, ["C19"], "contract", function="bevy select_animation (per-entity loop body)",
   clause="same key => nothing restarts; new key => clone of that key's timeline started from the component's current values, animator reset; key without timeline => timeline None, component untouched", assumes=[A6])
